@@ -97,6 +97,7 @@ def expected (E : Ext) : Conv → Bool → String
   | .pane info _, _ => listPhrase info.inFormat ++ " " ++ info.name
   | .nested v, pl => pluralize "n-d array" pl (some "a") ++ " of " ++ expected E v true
   | .custom id, pl => E.customExp id pl
+  | .vol inner, pl => expected E inner pl ++ " or sequence of " ++ expected E inner pl
 def expectedList (E : Ext) : List Conv → Bool → List String
   | [], _ => []
   | c :: cs, pl => expected E c pl :: expectedList E cs pl
